@@ -27,7 +27,7 @@ use std::sync::atomic::{AtomicU64, Ordering};
 pub struct C14;
 
 pub const NAMES: &[&str] = &["a", "b c", "é", "x%20y", "a.b", "n.md", "d/a", "d e/a", "a#b", "v1.2/a"];
-pub const BASES: &[&str] = &["plain", "space", "slash"];
+pub const BASES: &[&str] = &["plain", "space", "slash", "symlink"];
 const LINKER: &str = "zz";
 
 static COUNTER: AtomicU64 = AtomicU64::new(0);
@@ -101,6 +101,7 @@ fn base_features(base: &str) -> Vec<String> {
         "plain" => vec!["base-plain".into()],
         "space" => vec!["base-has-space".into(), "base-path-needs-encoding".into()],
         "slash" => vec!["base-trailing-slash".into()],
+        "symlink" => vec!["base-is-symlink".into()],
         other => panic!("C14: unknown base {:?}", other),
     }
 }
@@ -149,6 +150,13 @@ fn build(base: &str, files: &[String]) -> Lib {
     let root = PathBuf::from(format!("/verif/target/run/C14/{}-{}", std::process::id(), n));
     let _ = std::fs::remove_dir_all(&root);
     let dir = root.join(if base == "space" { "my lib" } else { "lib" });
+    if base == "symlink" {
+        // the configured library path is a symbolic link to the directory that holds the files;
+        // the editor addresses the files through the configured path
+        let real = root.join("real");
+        std::fs::create_dir_all(&real).expect("C14 scratch dir");
+        std::os::unix::fs::symlink(&real, &dir).expect("C14 scratch symlink");
+    }
     std::fs::create_dir_all(&dir).expect("C14 scratch dir");
     let write = |name: &str, content: &str| {
         let p = dir.join(format!("{}.md", name));
@@ -240,7 +248,7 @@ impl Engine for C14 {
     }
     fn rule(&self) -> String {
         format!(
-            "base paths {{plain `…/lib`, containing a space `…/my lib`, plain with a trailing slash}} x every non-empty subset (up to the size bound) of the file names {:?} (`n.md` is the file `n.md.md`), each file `<name>.md` = a titled note, plus a linking note `zz.md` with one block reference `[x](<name>)` per file; written to a scratch directory, loaded by the real disk loader and served by a real Server exactly as main_loop's `state: None` branch does; URIs only from Url::from_file_path. Clauses per file f: load — exactly one note carries f's title and there are |files|+1 notes; formatting(uri(f)) answers f's text; backlink — references(uri(f)) contains zz; definition — go-to-definition on zz's link to f answers a URI that opens f; uris — every URI in the answers (workspace symbols, references, definition, document symbols) maps back with Url::to_file_path to a file of the tree, and the symbol titled like f opens f; didChange(uri(f), new titled text) — the note count is unchanged, f's old title is gone and exactly one note carries the new one. non-trivial = the library loaded and at least one clause was evaluated on a handler answer",
+            "base paths {{plain `…/lib`, containing a space `…/my lib`, plain with a trailing slash, a symbolic link to the directory that holds the files}} x every non-empty subset (up to the size bound) of the file names {:?} (`n.md` is the file `n.md.md`), each file `<name>.md` = a titled note, plus a linking note `zz.md` with one block reference `[x](<name>)` per file; written to a scratch directory, loaded by the real disk loader and served by a real Server exactly as main_loop's `state: None` branch does; URIs only from Url::from_file_path. Clauses per file f: load — exactly one note carries f's title and there are |files|+1 notes; formatting(uri(f)) answers f's text; backlink — references(uri(f)) contains zz; definition — go-to-definition on zz's link to f answers a URI that opens f; uris — every URI in the answers (workspace symbols, references, definition, document symbols) maps back with Url::to_file_path to a file of the tree, and the symbol titled like f opens f; didChange(uri(f), new titled text) — the note count is unchanged, f's old title is gone and exactly one note carries the new one. non-trivial = the library loaded and at least one clause was evaluated on a handler answer",
             NAMES
         )
     }
@@ -249,7 +257,7 @@ impl Engine for C14 {
             Tier::Quick => 3,
             Tier::Thorough => 4,
         };
-        format!("3 base paths x all non-empty subsets of size <= {} of {} file names", k, NAMES.len())
+        format!("4 base paths x all non-empty subsets of size <= {} of {} file names", k, NAMES.len())
     }
     fn assumptions(&self) -> Vec<String> {
         vec![
